@@ -24,6 +24,7 @@ type MCall struct {
 type MFunc struct {
 	Name          string
 	FunctionCalls []MCall
+	IsConstructor bool // real models flag every constructor declaration
 }
 
 type MClass struct {
@@ -55,6 +56,9 @@ type CGOp struct {
 	Lookup bool              `json:"lookup,omitempty"`
 	Apis   []RestAPI         `json:"apis,omitempty"`
 	DI     map[string]string `json:"di,omitempty"`
+	// Reuse: decode the model into the process's long-lived model variable (what cmd/call.go,
+	// cmd/rcall.go and cmd/api.go do with their package-level parsedDeps), instead of a fresh slice
+	Reuse bool `json:"reuse,omitempty"`
 }
 
 type CGProc struct {
@@ -106,10 +110,12 @@ func genModel(t *tape.Tape, thorough bool) []MClass {
 			if t.Bool(1, 12) {
 				name = fmt.Sprintf("m\"%d", j) // names containing quotes must be escaped in DOT
 			}
-			if j == 0 && t.Bool(1, 10) {
+			isCtor := false
+			if j == 0 && t.Bool(1, 6) {
 				name = c.NodeName // a constructor: function named like its class
+				isCtor = true
 			}
-			c.Functions = append(c.Functions, MFunc{Name: name})
+			c.Functions = append(c.Functions, MFunc{Name: name, IsConstructor: isCtor})
 			decls = append(decls, decl{c.Package, c.NodeName, name})
 		}
 		model = append(model, c)
@@ -226,7 +232,7 @@ func genCGScenario(t *tape.Tape, tier string) *CGScenario {
 		for o := 0; o < nops; o++ {
 			mi := t.Pick(len(sc.Models))
 			model := sc.Models[mi]
-			op := CGOp{Model: mi}
+			op := CGOp{Model: mi, Reuse: t.Bool(1, 3)}
 			switch k := t.Pick(10); {
 			case k <= 3:
 				op.Kind = "call"
@@ -478,15 +484,15 @@ func runCG(id string, ctx *sim.RunCtx, data json.RawMessage) (*sim.Outcome, erro
 		for _, op := range p.Ops {
 			switch op.Kind {
 			case "call":
-				proc.Ops = append(proc.Ops, sim.Op{Op: "call", Args: map[string]interface{}{"root": op.Root, "model": modelPaths[op.Model], "lookup": op.Lookup}})
+				proc.Ops = append(proc.Ops, sim.Op{Op: "call", Args: map[string]interface{}{"root": op.Root, "model": modelPaths[op.Model], "lookup": op.Lookup, "reuse": op.Reuse}})
 			case "rcall":
-				proc.Ops = append(proc.Ops, sim.Op{Op: "rcall", Args: map[string]interface{}{"target": op.Root, "model": modelPaths[op.Model]}})
+				proc.Ops = append(proc.Ops, sim.Op{Op: "rcall", Args: map[string]interface{}{"target": op.Root, "model": modelPaths[op.Model], "reuse": op.Reuse}})
 			case "callByFiles":
 				apis := op.Apis
 				if apis == nil {
 					apis = []RestAPI{}
 				}
-				proc.Ops = append(proc.Ops, sim.Op{Op: "callByFiles", Args: map[string]interface{}{"apis": apis, "model": modelPaths[op.Model], "di": op.DI}})
+				proc.Ops = append(proc.Ops, sim.Op{Op: "callByFiles", Args: map[string]interface{}{"apis": apis, "model": modelPaths[op.Model], "di": op.DI, "reuse": op.Reuse}})
 			default:
 				return nil, sim.Harness("unknown op kind %q", op.Kind)
 			}
